@@ -12,7 +12,8 @@ type JSONValue interface{}
 func ConvertValueList(values []interface{}) ([]interface{}, error) {
 	var jsonValues []interface{}
 	for _, val := range values {
-		if val == nil {
+		// also a nil slice, map or pointer (and one nested in the value): JSON writes it as null
+		if HasNilValue(val) {
 			return nil, fmt.Errorf("null value cannot be inserted")
 		}
 		jsonValues = append(jsonValues, ConvertToJSONSupportedValue(val))
